@@ -192,6 +192,16 @@ def ev_round(ident: int, c: Case, fmt: str, sink: str, o: dict, scratch: str) ->
             write(x, target, ty=c.ty, **kw)
             e['wrote'] = 'ok'
             e['got'] = _read(read, target, c.ty)
+            if fmt == 'yaml':
+                e['want_nlibs'] = 3          # (one more file opened and closed by the library)
+                try:
+                    e['gall'] = {'k': 'ok', 'xs': [abstract(y) for y in pio.from_yaml_all(target, c.ty)]}
+                except pane.ConvertError:
+                    e['gall'] = {'k': 'reject'}
+                except OutOfVocab:
+                    e.pop('gall', None)
+                except Exception as ex:  # noqa
+                    e['gall'] = {'k': 'exc', 'c': type(ex).__name__}
         elif sink == 'returned':
             s = (x.write_json if fmt == 'json' else x.write_yaml)(**kw)
             e['wrote'] = 'ok' if isinstance(s, str) else 'not-a-string'
@@ -263,14 +273,14 @@ def run(rep, tier: str, grammar_cases: list) -> None:
         desc.update(desc2)
         # part B
         n = 0
-        for (T, v) in grammar_cases:
-            c = Case(T, v, 0)
+        for ci, (T, v) in enumerate(grammar_cases):
+            c = Case(T, v, ci % 6)          # every spelling of the type, type literals included
             if c.err is not None or c.bf is not None:
                 continue
             for fmt in ('json', 'yaml'):
                 opts = jopts if fmt == 'json' else yopts
                 o = opts[n % len(opts)]
-                sink = SINKS[n % len(SINKS)]
+                sink = SINKS[(n + n // len(SINKS)) % len(SINKS)]      # (a drifting rotation: every sink meets every spelling and format)
                 n += 1
                 ident += 1
                 events.append(ev_round(ident, c, fmt, sink, o, scratch))
